@@ -53,6 +53,47 @@ func reSerialise(val any) ([]byte, bool) {
 	return nil, false
 }
 
+// appendSafety: a caller appends to the byte slices the value's argument-free methods return (what append may write is the part between
+// length and capacity).  The input buffer - and with it the remainder the parser returned, which is its suffix - has to stay what it is.
+func appendSafety(o ReadOut, in, orig []byte) []string {
+	unsafe := []string{}
+	if !o.OK || o.Val == nil {
+		return unsafe
+	}
+	v := reflect.ValueOf(o.Val)
+	if v.Kind() == reflect.Pointer && v.IsNil() {
+		return unsafe
+	}
+	for _, i := range readOnlyMethods(v) {
+		m := v.Type().Method(i)
+		if m.Type.NumOut() < 1 || m.Type.Out(0).Kind() != reflect.Slice || m.Type.Out(0).Elem().Kind() != reflect.Uint8 {
+			continue
+		}
+		func() {
+			defer func() { recover() }()
+			outs := v.Method(i).Call(nil)
+			b := outs[0]
+			if b.Len() == b.Cap() {
+				return
+			}
+			ext := b.Slice3(0, b.Cap(), b.Cap())
+			for k := b.Len(); k < b.Cap(); k++ {
+				ext.Index(k).SetUint(ext.Index(k).Uint() ^ 0xFF)
+			}
+			if !bytes.Equal(in, orig) {
+				unsafe = append(unsafe, m.Name)
+				copy(in, orig)
+			} else {
+				// give the spare capacity back as it was (it belongs to whoever owns that array)
+				for k := b.Len(); k < b.Cap(); k++ {
+					ext.Index(k).SetUint(ext.Index(k).Uint() ^ 0xFF)
+				}
+			}
+		}()
+	}
+	return unsafe
+}
+
 // queryStability: every read-only argument-free method of an accepted value is called twice over (two full passes);
 // the second pass must render exactly as the first, and the value must serialise afterwards exactly as it did before.
 // (A query that reorders, caches into or otherwise disturbs the value it is asked about shows up here.)
@@ -159,6 +200,7 @@ func init() {
 		queryStability(o, r)
 		// the caller's buffer is the caller's: neither parsing nor querying may write into it
 		r["in_unchanged"] = bytes.Equal(in, a.Bytes("in"))
+		r["append_unsafe"] = appendSafety(o, in, a.Bytes("in"))
 		addSha(r, a)
 		return r
 	})
@@ -176,6 +218,7 @@ func init() {
 			r := o.res()
 			queryStability(o, r)
 			r["in_unchanged"] = bytes.Equal(in, a.Bytes("in"))
+			r["append_unsafe"] = appendSafety(o, in, a.Bytes("in"))
 			r["fn"] = fn
 			results = append(results, r)
 		}
